@@ -102,6 +102,24 @@ def monitor2(ctx, hooks, seed, n):
         results[name + "-again"] = c15ops.run_ops(ops)
     hooks.set_cache(maxsize=8192, maxsectors=1)
     results["maxsectors-1"] = c15ops.run_ops(ops)
+    # results are the caller's: mutating what an earlier call returned must not change what
+    # the same call returns next time
+    hooks.set_cache(maxsize=8192, maxsectors=512, clear=True)
+    again = []
+    for op in ops:
+        try:
+            r0 = op[1]()
+            for v in (r0 if isinstance(r0, (tuple, list)) else [r0]):
+                if hasattr(v, "apply_to_arrays") and hasattr(v, "blocks"):
+                    v.apply_to_arrays(lambda b: b * 0.0 - 7.0)
+                    if getattr(v, "fermionic", False):
+                        v.phase_global(inplace=True)
+                elif isinstance(v, np.ndarray) and v.flags.writeable:
+                    v[...] = -7.0
+        except Exception:
+            pass
+        again.append(c15ops.run_ops([op])[0])
+    results["after-mutating-the-previous-result-in-place"] = again
     order = list(range(len(ops)))
     random.Random(seed).shuffle(order)
     hooks.set_cache(maxsize=2, maxsectors=512)
